@@ -1130,7 +1130,28 @@ func c13Linked(p *core.Program, r *core.Report, t *types.Named, rule string) {
 			}
 			return out
 		})
-		if !touches || over {
+		// a function that builds a list node links it in, whether or not it touches first/last itself
+		buildsNode := false
+		ast.Inspect(fi.Decl.Body, func(n ast.Node) bool {
+			if cl, ok := n.(*ast.CompositeLit); ok {
+				if st, ok := fi.Pkg.TypesInfo.TypeOf(cl).Underlying().(*types.Struct); ok {
+					hp, hn := false, false
+					for k := 0; k < st.NumFields(); k++ {
+						switch st.Field(k).Name() {
+						case "prev":
+							hp = true
+						case "next":
+							hn = true
+						}
+					}
+					if hp && hn {
+						buildsNode = true
+					}
+				}
+			}
+			return true
+		})
+		if (!touches && !buildsNode) || over {
 			continue
 		}
 		c := tn + "." + fi.Obj.Name()
@@ -1219,6 +1240,13 @@ func c13Linked(p *core.Program, r *core.Report, t *types.Named, rule string) {
 			nodeName := setFirst
 			if !f1 {
 				nodeName = setLast
+			}
+			if !inserted && len(fresh) == 1 && !headRemoved && !tailRemoved && !(setFirst == "nil" && setLast == "nil") {
+				// the path builds a node and sets neither end: still an insertion (in the middle, or a broken one)
+				for k := range fresh {
+					nodeName = k
+				}
+				inserted = true
 			}
 			cleared := setFirst == "nil" && setLast == "nil"
 			emptyKnown := func(neg bool) bool {
